@@ -1,7 +1,20 @@
 /-
 C07 — Redirections and pipes deliver each stream to exactly the documented place.
+
+"For every stage of a pipeline, stdout and stderr end up — completely and only — where the redirect operators say:
+`>`/`o>`/`1>` to a file (truncated), `>>` appended, `e>`/`2>` for stderr, `a>`/`&>` both, `e>o`/`2>&1` and `o>e`/`1>&2`
+merged, `e>p`/`a>p` into the following pipe, `<` a file as stdin; unredirected stdout goes to the next stage, the
+capture or the terminal.  All documented spellings of an operator are equivalent, and conflicting or malformed
+redirects are reported as errors rather than silently misrouted."
+
+Theorems over the model `Redir` (Model/Redir.lean) instantiated with the tables TRANSLATED from /repo on this run
+(Gen/Redir.lean): decoder tables of xonsh/procs/specs.py, the complete language of `_REDIR_REGEX`, the tokenizer's
+redirect spellings, the shape of the grammar rule.  The documented routing is `Redir.specRoute` (written from
+docs/tutorial.rst); `Redir.route` is the code as it is (`Quirks.current`) or with its seven deviations repaired
+(`Quirks.fixed`).  The lemmas that do not mention the tables are in Lemmas/Redir*.lean.
 -/
 import XonshVerif.Model.Redir
+import XonshVerif.Lemmas.RedirStage
 import XonshVerif.Gen.Redir
 open Redir
 
@@ -9,6 +22,8 @@ open Redir
 def T : Tables :=
   ⟨Gen.Redir.regexLang, Gen.Redir.modes, Gen.Redir.writeModes, Gen.Redir.redirAll, Gen.Redir.redirErr, Gen.Redir.redirOut,
    Gen.Redir.e2oMap, Gen.Redir.o2eMap, Gen.Redir.a2pMap, Gen.Redir.e2pMap⟩
+
+/-! ## the spelling table -/
 
 def decodesAsDocumented (r : Str) : Bool :=
   match specDecode r, classify T r with
@@ -18,7 +33,9 @@ def decodesAsDocumented (r : Str) : Bool :=
 theorem table_check : ∀ r ∈ Gen.Redir.tokenizable, decodesAsDocumented r = true := by
   decide +kernel
 
-/-- every spelling that reaches the parser as one redirect token decodes to its documented meaning -/
+/-- EVERY spelling that reaches the parser as one redirect token (tokenize._redir_check_single / _redir_check_map and the
+lexer's `<` `>` `>>`) is a documented operator, and the tables of procs/specs.py decode it to exactly that operator
+(stream, merge direction, pipe form and open mode) -/
 theorem C07_spelling_table (r : Str) (h : r ∈ Gen.Redir.tokenizable) :
     ∃ op, specDecode r = some op ∧ classify T r = .ok (clsOf op) := by
   have := table_check r h
@@ -27,3 +44,276 @@ theorem C07_spelling_table (r : Str) (h : r ∈ Gen.Redir.tokenizable) :
   · rename_i op c h1 h2
     exact ⟨op, h1, by rw [h2]; simp at this; rw [this]⟩
   · simp at this
+
+/-- all spellings of one operator are equivalent -/
+theorem C07_spellings_equivalent (r₁ r₂ : Str) (h₁ : r₁ ∈ Gen.Redir.tokenizable) (h₂ : r₂ ∈ Gen.Redir.tokenizable)
+    (h : specDecode r₁ = specDecode r₂) : classify T r₁ = classify T r₂ := by
+  obtain ⟨o1, d1, c1⟩ := C07_spelling_table r₁ h₁
+  obtain ⟨o2, d2, c2⟩ := C07_spelling_table r₂ h₂
+  rw [d1, d2] at h
+  cases h
+  rw [c1, c2]
+
+/-- the spellings docs/tutorial.rst names, by operator -/
+def tutorialSpellings : List (Str × Op) :=
+  [(">".toList, .outFile false), ("out>".toList, .outFile false), ("o>".toList, .outFile false), ("1>".toList, .outFile false),
+   (">>".toList, .outFile true), ("out>>".toList, .outFile true), ("o>>".toList, .outFile true), ("1>>".toList, .outFile true),
+   ("err>".toList, .errFile false), ("e>".toList, .errFile false), ("2>".toList, .errFile false),
+   ("err>>".toList, .errFile true), ("e>>".toList, .errFile true), ("2>>".toList, .errFile true),
+   ("all>".toList, .allFile false), ("a>".toList, .allFile false), ("&>".toList, .allFile false),
+   ("all>>".toList, .allFile true), ("a>>".toList, .allFile true), ("&>>".toList, .allFile true),
+   ("err>out".toList, .errToOut), ("err>o".toList, .errToOut), ("e>out".toList, .errToOut), ("e>o".toList, .errToOut),
+   ("2>&1".toList, .errToOut),
+   ("out>err".toList, .outToErr), ("out>e".toList, .outToErr), ("o>err".toList, .outToErr), ("o>e".toList, .outToErr),
+   ("1>&2".toList, .outToErr),
+   ("a>p".toList, .allToPipe), ("all>p".toList, .allToPipe), ("e>p".toList, .errToPipe), ("err>p".toList, .errToPipe),
+   ("<".toList, .input)]
+
+/-- every spelling the tutorial names is lexed as one redirect token and means what the tutorial says -/
+theorem C07_tutorial_spellings :
+    ∀ p ∈ tutorialSpellings, Gen.Redir.tokenizable.contains p.1 = true ∧ specDecode p.1 = some p.2 := by
+  decide +kernel
+
+example : ("2>&1".toList, Op.errToOut) ∈ tutorialSpellings := by decide
+example : classify T "err>out".toList = .ok .errToOut ∧ classify T "2>&1".toList = .ok .errToOut := by decide +kernel
+
+/-- `>` truncates and `>>` appends: the open mode of every file redirect spelling -/
+def modeCheck (r : Str) : Bool :=
+  let want : Str := if r.reverse.take 2 = ['>', '>'] then ['a'] else ['w']
+  match classify T r with
+  | .ok (.outFile m) | .ok (.errFile m) | .ok (.allFile m) => m == want
+  | _ => true
+
+theorem C07_mode : ∀ r ∈ Gen.Redir.tokenizable, modeCheck r = true := by
+  decide +kernel
+
+example : classify T ">".toList = .ok (.outFile ['w']) ∧ classify T "e>>".toList = .ok (.errFile ['a']) := by decide +kernel
+
+/-- the grammar rule `p_subproc_atom_redirect` gives a target word to exactly the file / input operators: the tokens it
+accepts alone (IOREDIRECT2) are the merge / pipe operators, and every tokenizable spelling has one of the two shapes -/
+def shapeCheck (r : Str) : Bool :=
+  match specDecode r with
+  | some op =>
+    (Gen.Redir.standsAlone.contains r == isMergeOrPipe op) && (Gen.Redir.takesTarget.contains r == !isMergeOrPipe op)
+  | none => false
+
+theorem C07_grammar_shape : ∀ r ∈ Gen.Redir.tokenizable, shapeCheck r = true := by
+  decide +kernel
+
+/-! ## operators that are not documented -/
+
+def accepted (w : Str) : Bool := match classify T w with | .ok _ => true | .error _ => false
+
+/-- the destination group is `&` + digit (`2>&3`: the decoder drops the descriptor and treats it as `2>` file) -/
+def ampFd (row : Str × (Str × Str × Str)) : Bool := match row.2.2.2 with | '&' :: _ => true | _ => false
+
+/-- a merge written with a stray leading `&` (`&2>o`: `_redirect_streams` deletes every `&` before looking it up) -/
+def strayAmp (row : Str × (Str × Str × Str)) : Bool := match row.2.1 with | '&' :: _ :: _ => true | _ => false
+
+/-- MALFORMED OPERATORS ARE REJECTED: every word of the language of `_REDIR_REGEX` that is not a tokenizable spelling
+raises — except the two families `X>&N` and `&N>Y`, which the decoder accepts when it is called programmatically.  No
+member of the two families is tokenizable (they are not in the list by definition, and the `lexer` stream of the check
+shows the real lexer never emits one as a single token): a remark about the API of run_subproc, not a routing defect.
+A tokenizer change that makes one of them a token breaks `C07_spelling_table`. -/
+theorem C07_unknown_rejected :
+    ∀ row ∈ Gen.Redir.regexLang, Gen.Redir.tokenizable.contains row.1 = false → ampFd row = false → strayAmp row = false →
+      accepted row.1 = false := by
+  decide +kernel
+
+/-- … and outside the regex language nothing is accepted but the pipe operators -/
+theorem C07_outside_regex (w : Str) (h : T.regex.lookup (stripFinalNewline w) = none)
+    (h1 : T.a2p.contains w = false) (h2 : T.e2p.contains w = false)
+    (h3 : T.e2o.contains (w.filter (· ≠ '&')) = false) (h4 : T.o2e.contains (w.filter (· ≠ '&')) = false) :
+    classify T w = .error .noMatch := by
+  simp [classify, h1, h2, h3, h4, parseRedirects, h]
+
+example : accepted "2>&3".toList = true ∧ accepted "2>3".toList = false ∧ accepted "o>p".toList = false := by decide +kernel
+
+/-! ## conflicts are errors -/
+
+/-- a redirect as the grammar produces it: a tokenizable spelling; a lone IOREDIRECT2 carries no target word -/
+def FromSource (p : Str × Loc) : Prop :=
+  p.1 ∈ Gen.Redir.tokenizable ∧ (p.1 ∈ Gen.Redir.standsAlone → ∀ t, p.2 ≠ .one t)
+
+theorem good_of_source (p : Str × Loc) (h : FromSource p) : Good T p := by
+  obtain ⟨h1, h2⟩ := h
+  obtain ⟨op, hd, hc⟩ := C07_spelling_table p.1 h1
+  refine ⟨op, hd, hc, ?_⟩
+  intro hm
+  apply h2
+  have := C07_grammar_shape p.1 h1
+  simp only [shapeCheck, hd, hm] at this
+  simp at this
+  exact List.contains_iff_mem.mp this.1 |> fun x => x
+
+/-- CONFLICTING REDIRECTS ARE ERRORS, for EVERY list of redirects of one command: `SubprocSpec.resolve_redirects`
+succeeds iff every redirect is well formed (documented operator, the target it needs, the target can be opened) and
+neither stdin, stdout nor stderr is claimed by two of them; otherwise it raises -/
+theorem C07_conflict_is_error (ts : Nat → TState) (rs : List (Str × Loc)) (hs : ∀ p ∈ rs, FromSource p) :
+    (∃ s, applyRedirs T ts rs (none, none, none) = .ok s) ↔
+      (∀ p ∈ rs, (wellFormed ts p.1 p.2).isSome = true) ∧
+      ((wfs ts rs).filterMap claimIn).length ≤ 1 ∧ ((wfs ts rs).filterMap claimOut).length ≤ 1 ∧
+      ((wfs ts rs).filterMap claimErr).length ≤ 1 :=
+  applyRedirs_ok_iff T ts rs (fun p hp => good_of_source p (hs p hp))
+
+def ts0 : Nat → TState := fun _ => .present
+
+example : applyRedirs T ts0 [(">".toList, .one 0), ("e>".toList, .one 1)] (none, none, none) =
+    .ok (none, some (.file 0 ['w']), some (.file 1 ['w'])) := by decide +kernel
+example : applyRedirs T ts0 [(">".toList, .one 0), ("a>>".toList, .one 1)] (none, none, none) = .error .multiStdout := by
+  decide +kernel
+example : applyRedirs T ts0 [("e>o".toList, .none), ("2>".toList, .one 1)] (none, none, none) = .error .multiStderr := by
+  decide +kernel
+
+/-! ## routing = documentation -/
+
+/-- THE ROUTING THEOREM.  For EVERY pipeline — any number of stages of any kind (external command, threadable or not;
+callable alias, threadable or not), any list of redirects per stage written with any tokenizable spelling, any capture
+form, any setting of $THREAD_SUBPROCS / $XONSH_CAPTURE_ALWAYS / $XONSH_SUBPROC_CAPTURED_PRINT_STDERR, any state of
+the target files — the model with the seven deviations repaired satisfies the documented routing: it raises exactly
+when the documentation says error, and otherwise every stage's stdin source, stdout places, stderr places and opened
+files (with mode) are the documented ones.  (Proof: decoding by the table theorem; slots by induction on the redirect
+list; the three passes of cmds_to_specs refined to a stage-by-stage function; one stage by case analysis; the pipeline
+by induction on the stage list.) -/
+theorem C07_route (ts : Nat → TState) (cfg : Cfg) (cap : Cap) (stages : List Stage)
+    (hs : ∀ st ∈ stages, ∀ p ∈ st.redirs, FromSource p) :
+    agrees (route T ts Quirks.fixed cfg cap stages) (specRoute ts cfg cap stages) = true :=
+  route_ok Quirks.fixed _ coreOk_fixed T ts cfg cap stages
+    (fun st hst p hp => good_of_source p (hs st hst p hp)) (fun _ _ _ => trivial)
+
+/-- a stage outside the seven deviation regions (`isLast`: it is the last stage of the pipeline) -/
+def OutsideStage (cfg : Cfg) (cap : Cap) (isLast : Bool) (st : Stage) : Prop :=
+  (∀ p ∈ st.redirs, specDecode p.1 ≠ some .outToErr) ∧          -- no `o>e`
+  unthreadedAlias cfg st.kind = false ∧                           -- not an unthreaded callable alias
+  (isLast = true → cap = .uncaptured → isAlias st.kind = false) ∧ -- `$[…]` does not end in a callable alias
+  (isLast = true → cap = .object → procThreadable cfg st.kind = true)   -- `!(…)` ends in a threadable command
+
+/-- THE ROUTING THEOREM FOR TODAY'S CODE (partial): the model with all seven deviations present satisfies the documented
+routing for every pipeline all of whose stages are outside the deviation regions.  The unrestricted statement is false:
+one counterexample per deviation below. -/
+theorem C07_route_partial (ts : Nat → TState) (cfg : Cfg) (cap : Cap) (stages : List Stage)
+    (hs : ∀ st ∈ stages, ∀ p ∈ st.redirs, FromSource p)
+    (ho : ∀ k st, stages[k]? = some st → OutsideStage cfg cap (k + 1 == stages.length) st) :
+    agrees (route T ts Quirks.current cfg cap stages) (specRoute ts cfg cap stages) = true :=
+  route_ok Quirks.current Outside coreOk_current T ts cfg cap stages
+    (fun st hst p hp => good_of_source p (hs st hst p hp))
+    (fun k st hk => by
+      obtain ⟨h1, h2, h3, h4⟩ := ho k st hk
+      exact ⟨no_fd2 ts st.redirs h1, h2, h3, h4⟩)
+
+/-! ### non-vacuity: what the theorems say on concrete pipelines -/
+
+def dflt : Cfg := ⟨true, false, false⟩
+def xp : Kind := .proc true
+def ta : Kind := .alias true
+def ua : Kind := .alias false
+
+/-- `xp e>o < in | ta > out e>> errs` under `$()` (the example of the tutorial) -/
+example :
+    route T ts0 Quirks.current dflt .stdout
+      [⟨xp, [("e>o".toList, .none), ("<".toList, .one 0)]⟩, ⟨ta, [(">".toList, .one 1), ("e>>".toList, .one 2)]⟩] =
+    ⟨none, false,
+      [⟨.file 0, [.stdinOf 1], [.stdinOf 1], []⟩,
+       ⟨.pipe, [.file 1 ['w']], [.file 2 ['a']], [(1, ['w']), (2, ['a'])]⟩]⟩ := by decide +kernel
+
+example :
+    specRoute ts0 dflt .stdout
+      [⟨xp, [("e>o".toList, .none), ("<".toList, .one 0)]⟩, ⟨ta, [(">".toList, .one 1), ("e>>".toList, .one 2)]⟩] =
+    .ok [⟨.file 0, [.stdinOf 1], [.stdinOf 1], []⟩,
+         ⟨.pipe, [.file 1 ['w']], [.file 2 ['a']], [(1, ['w']), (2, ['a'])]⟩] := by decide +kernel
+
+/-- `xp o> f e>p | xp` : stdout to the file, only stderr into the pipe -/
+example :
+    route T ts0 Quirks.current dflt .hidden [⟨xp, [("o>".toList, .one 0), ("e>p".toList, .none)]⟩, ⟨xp, []⟩] =
+    ⟨none, false, [⟨.inherit, [.file 0 ['w']], [.stdinOf 1], [(0, ['w'])]⟩, ⟨.pipe, [.termOut], [.termErr], []⟩]⟩ := by
+  decide +kernel
+
+/-- `xp > f | xp` is an error, and so is `xp e>p` without a pipe -/
+example : (route T ts0 Quirks.current dflt .hidden [⟨xp, [(">".toList, .one 0)]⟩, ⟨xp, []⟩]).err = some .multiStdout ∧
+    specRoute ts0 dflt .hidden [⟨xp, [(">".toList, .one 0)]⟩, ⟨xp, []⟩] = .error := by decide +kernel
+example : (route T ts0 Quirks.current dflt .hidden [⟨xp, [("e>p".toList, .none)]⟩]).err = some .needsPipe ∧
+    specRoute ts0 dflt .hidden [⟨xp, [("e>p".toList, .none)]⟩] = .error := by decide +kernel
+
+/-- the partial theorem is not vacuous: a pipeline outside the deviation regions -/
+example : ∀ k st, [Stage.mk xp [("e>o".toList, .none)], Stage.mk ta [(">>".toList, .one 0)]][k]? = some st →
+    OutsideStage dflt .hidden (k + 1 == 2) st := by
+  intro k st h
+  match k, h with
+  | 0, h => cases h; exact ⟨by decide +kernel, by decide, by decide, by decide⟩
+  | 1, h => cases h; exact ⟨by decide +kernel, by decide, by decide, by decide⟩
+
+/-! ## the seven deviations of today's code: counterexamples (each is replayed on the real code by the check) -/
+
+def only (k : Nat) : Quirks :=
+  ⟨k == 0, k == 1, k == 2, k == 3, k == 4, k == 5, k == 6⟩
+
+/-- `$[alias]`: the alias's stderr lands on the shell's stdout (ProcProxyThread.run: `errwrite == c2pwrite`, both -1) -/
+theorem C07_cex_alias_uncaptured_stderr :
+    route T ts0 Quirks.current dflt .uncaptured [⟨ta, []⟩] = ⟨none, false, [⟨.inherit, [.termOut], [.termOut], []⟩]⟩ ∧
+    specRoute ts0 dflt .uncaptured [⟨ta, []⟩] = .ok [⟨.inherit, [.termOut], [.termErr], []⟩] ∧
+    agrees (route T ts0 (only 0) dflt .uncaptured [⟨ta, []⟩]) (specRoute ts0 dflt .uncaptured [⟨ta, []⟩]) = false := by
+  decide +kernel
+
+/-- `![unthreaded_alias e>o]`: `e>o` is ignored (ProcProxy._pick_buf: -2 < 3 means "sys.stderr") -/
+theorem C07_cex_unthreaded_alias_e2o :
+    route T ts0 Quirks.current dflt .hidden [⟨ua, [("e>o".toList, .none)]⟩] =
+      ⟨none, false, [⟨.inherit, [.termOut], [.termErr], []⟩]⟩ ∧
+    specRoute ts0 dflt .hidden [⟨ua, [("e>o".toList, .none)]⟩] = .ok [⟨.inherit, [.termOut], [.termOut], []⟩] ∧
+    agrees (route T ts0 (only 1) dflt .hidden [⟨ua, [("e>o".toList, .none)]⟩])
+      (specRoute ts0 dflt .hidden [⟨ua, [("e>o".toList, .none)]⟩]) = false := by
+  decide +kernel
+
+/-- `$(cmd o>e)`: cmd's stdout lands on the shell's stdout, not on its stderr (`last._stdout = last.stderr` = None) -/
+theorem C07_cex_captured_o2e :
+    route T ts0 Quirks.current dflt .stdout [⟨xp, [("o>e".toList, .none)]⟩] =
+      ⟨none, false, [⟨.inherit, [.termOut], [.termErr], []⟩]⟩ ∧
+    specRoute ts0 dflt .stdout [⟨xp, [("o>e".toList, .none)]⟩] = .ok [⟨.inherit, [.termErr], [.termErr], []⟩] ∧
+    agrees (route T ts0 (only 2) dflt .stdout [⟨xp, [("o>e".toList, .none)]⟩])
+      (specRoute ts0 dflt .stdout [⟨xp, [("o>e".toList, .none)]⟩]) = false := by
+  decide +kernel
+
+/-- `$[alias e>o]` raises AttributeError after the alias ran; `![unthreaded_alias o>e]` raises it before anything runs -/
+theorem C07_cex_int_handle :
+    route T ts0 Quirks.current dflt .uncaptured [⟨ta, [("e>o".toList, .none)]⟩] =
+      ⟨none, true, [⟨.inherit, [.termOut], [.termOut], []⟩]⟩ ∧
+    specRoute ts0 dflt .uncaptured [⟨ta, [("e>o".toList, .none)]⟩] = .ok [⟨.inherit, [.termOut], [.termOut], []⟩] ∧
+    agrees (route T ts0 (only 3) dflt .uncaptured [⟨ta, [("e>o".toList, .none)]⟩])
+      (specRoute ts0 dflt .uncaptured [⟨ta, [("e>o".toList, .none)]⟩]) = false ∧
+    route T ts0 Quirks.current dflt .hidden [⟨ua, [("o>e".toList, .none)]⟩] = ⟨some .intNotReadable, false, []⟩ ∧
+    specRoute ts0 dflt .hidden [⟨ua, [("o>e".toList, .none)]⟩] = .ok [⟨.inherit, [.termErr], [.termErr], []⟩] := by
+  decide +kernel
+
+/-- `!(unthreaded_alias)`: the alias's stderr is nowhere (iterraw's non-threadable path never reads captured_stderr);
+the same for an external command with $THREAD_SUBPROCS off -/
+theorem C07_cex_object_stderr_lost :
+    route T ts0 Quirks.current dflt .object [⟨ua, []⟩] = ⟨none, false, [⟨.inherit, [.capOut], [], []⟩]⟩ ∧
+    specRoute ts0 dflt .object [⟨ua, []⟩] = .ok [⟨.inherit, [.capOut], [.capErr], []⟩] ∧
+    agrees (route T ts0 (only 4) dflt .object [⟨ua, []⟩]) (specRoute ts0 dflt .object [⟨ua, []⟩]) = false ∧
+    route T ts0 Quirks.current ⟨false, false, false⟩ .object [⟨xp, []⟩] = ⟨none, false, [⟨.inherit, [.capOut], [], []⟩]⟩ := by
+  decide +kernel
+
+/-- `![cmd o>e e> f]`: cmd's stdout goes to the shell's stderr, not into f (the flag 2 is passed on as descriptor 2) -/
+theorem C07_cex_o2e_literal_fd :
+    route T ts0 Quirks.current dflt .hidden [⟨xp, [("o>e".toList, .none), ("e>".toList, .one 0)]⟩] =
+      ⟨none, false, [⟨.inherit, [.termErr], [.file 0 ['w']], [(0, ['w'])]⟩]⟩ ∧
+    specRoute ts0 dflt .hidden [⟨xp, [("o>e".toList, .none), ("e>".toList, .one 0)]⟩] =
+      .ok [⟨.inherit, [.file 0 ['w']], [.file 0 ['w']], [(0, ['w'])]⟩] ∧
+    agrees (route T ts0 (only 5) dflt .hidden [⟨xp, [("o>e".toList, .none), ("e>".toList, .one 0)]⟩])
+      (specRoute ts0 dflt .hidden [⟨xp, [("o>e".toList, .none), ("e>".toList, .one 0)]⟩]) = false := by
+  decide +kernel
+
+/-- `![unthreaded_alias < f]`: the alias cannot read its stdin (a text file wrapped in TextIOWrapper) and delivers nothing -/
+theorem C07_cex_unthreaded_alias_stdin :
+    route T ts0 Quirks.current dflt .hidden [⟨ua, [("<".toList, .one 0)]⟩] = ⟨none, false, [⟨.broken, [], [], []⟩]⟩ ∧
+    specRoute ts0 dflt .hidden [⟨ua, [("<".toList, .one 0)]⟩] = .ok [⟨.file 0, [.termOut], [.termErr], []⟩] ∧
+    agrees (route T ts0 (only 6) dflt .hidden [⟨ua, [("<".toList, .one 0)]⟩])
+      (specRoute ts0 dflt .hidden [⟨ua, [("<".toList, .one 0)]⟩]) = false := by
+  decide +kernel
+
+/-- with all seven repaired each of the seven witnesses is routed as documented (instances of `C07_route`) -/
+example :
+    agrees (route T ts0 Quirks.fixed dflt .uncaptured [⟨ta, []⟩]) (specRoute ts0 dflt .uncaptured [⟨ta, []⟩]) = true ∧
+    agrees (route T ts0 Quirks.fixed dflt .object [⟨ua, []⟩]) (specRoute ts0 dflt .object [⟨ua, []⟩]) = true ∧
+    agrees (route T ts0 Quirks.fixed dflt .hidden [⟨xp, [("o>e".toList, .none), ("e>".toList, .one 0)]⟩])
+      (specRoute ts0 dflt .hidden [⟨xp, [("o>e".toList, .none), ("e>".toList, .one 0)]⟩]) = true := by
+  decide +kernel
